@@ -154,7 +154,7 @@ async def run_real(adapter, cmds, data, log):
     await handle(Reader(), Writer())
 
 
-async def run_real_seq(adapter, chunks, log, intr_latency):
+async def run_real_seq(adapter, chunks, log, intr_latency, eof_at_once=False):
     """a sequence of chunks on ONE connection through the TcpIo handle function; the client pipelines
     (the next chunk is available at once) and raising an interrupt takes `intr_latency` loop iterations,
     as it does when the real raise_interrupt awaits the state producer"""
@@ -174,7 +174,8 @@ async def run_real_seq(adapter, chunks, log, intr_latency):
             if self.k < len(chunks):
                 self.k += 1
                 return chunks[self.k - 1]
-            for _ in range(8 + 4 * intr_latency):
+            # the client half-closes right after its last message (`echo CMD | nc host port`), or a while later
+            for _ in range(0 if eof_at_once else 8 + 4 * intr_latency):
                 await asyncio.sleep(0)
             return b""
 
@@ -454,13 +455,14 @@ def run(tier, seed, drv):
         for k in range(40 if tier == "quick" else 400):
             chunks = [rng.choice(hits) if hits and rng.random() < 0.8 else rng.choice(pool) for _ in range(rng.randrange(2, 5))]
             lat = rng.choice((0, 1, 3))
+            eof_now = k % 2 == 1
             log = []
             adapter = build_adapter(cmds, log, None)
-            case = {"set": si, "chunks": [list(c) for c in chunks], "intr_latency": lat}
+            case = {"set": si, "chunks": [list(c) for c in chunks], "intr_latency": lat, "eof_at_once": eof_now}
             res.case((si, "seq", tuple(chunks), lat), nontrivial=True)
             res.count("chunk-sequences")
             try:
-                loop.run_until_complete(run_real_seq(adapter, chunks, log, lat))
+                loop.run_until_complete(run_real_seq(adapter, chunks, log, lat, eof_at_once=eof_now))
             except Exception as e:
                 res.violate(V("handler-raised", f"handling chunks {chunks!r} raised {type(e).__name__}:{e}", site=type(e).__name__), case)
                 continue
@@ -589,7 +591,7 @@ def replay(payload, drv):
         loop = asyncio.new_event_loop()
         err = None
         try:
-            loop.run_until_complete(run_real_seq(build_adapter(cmds, log, None), chunks, log, c["intr_latency"]))
+            loop.run_until_complete(run_real_seq(build_adapter(cmds, log, None), chunks, log, c["intr_latency"], eof_at_once=c.get("eof_at_once", False)))
         except Exception as e:
             err = f"{type(e).__name__}:{e}"
         loop.close()
